@@ -460,7 +460,7 @@ def locks_replay_lines(sc, r, t="t1"):
         sends = {e.get("req"): (e.get("f") or {}) for e in evs if e["kind"] == "send"}
         rpc_keys = None
         if op in ("set", "del"):
-            body = ["set", "%x" % kidx[sc["program"][i]["k"]]]
+            body = [op, "%x" % kidx[sc["program"][i]["k"]]]
         elif op in ("insert", "lock"):
             st = dict(sc["program"][i])
             if op == "insert":
@@ -501,7 +501,10 @@ def locks_replay_lines(sc, r, t="t1"):
             res = "ok" if not err else _FAIL.get(err, "other")
             early = 1 if (err == "err:exists" and not sent) else 0
             body = ["lock", hx(st["ks"]), *(str(int(bool(st.get(x)))) for x in ("rv", "ce", "loie")), "%x" % s.get("for_update", 0),
-                    str(early), hx(sorted(set(locked))), hx(sorted(set(absent))), "%x" % lwc, res]
+                    str(early), hx(sorted(set(locked))), hx(sorted(set(absent))), "%x" % lwc, res,
+                    # expiry of previous-attempt locks: the observed choice (a request was sent) is fed to the model when the
+                    # managed TTL is small; locks_compare checks it against the wall-clock windows of the calls
+                    "1" if (sc.get("managed_ttl") and sent and s["bk"].get("agg")) else "0"]
             rpc_keys = sorted(sent)
         elif op in ("agg_start", "agg_retry", "agg_cancel", "agg_done"):
             body = [op.replace("_", "")]
@@ -516,11 +519,13 @@ def locks_replay_lines(sc, r, t="t1"):
             pw = sorted({unhex(h) for sf, f in pws if okp(f) for h in sf.get("keys", [])})
             sync = sorted({unhex(h) for sf, f in cms if not f.get("error") and "regionerr" not in f and "rpc_err" not in f for h in sf.get("keys", [])})
             res = "ok" if not s.get("err") else ("cfail" if any(e.get("cmd") == "Commit" and e["kind"] == "send" for e in evs) else "pfail")
-            body = ["commit", "1pc" if onepc else ("async" if asyn else "2pc"), hx(pw), hx(sync), res]
+            body = ["commit", "1pc" if onepc else ("async" if asyn else "2pc"), hx(pw), hx(sync), res,
+                    hx([k for k in (sc["txns"][t].get("filter_keys") or []) if k in kidx])]
         else:
             body = ["nop"]
         lines.append("\t".join(["E", str(i)] + body))
-        exp.append({"i": i, "op": op, "bk": s["bk"], "rpc_keys": rpc_keys, "err": s.get("err"), "line": lines[-1]})
+        exp.append({"i": i, "op": op, "bk": s["bk"], "rpc_keys": rpc_keys, "err": s.get("err"), "line": lines[-1],
+                    "t0": s.get("t0_ms"), "t1": s.get("t1_ms")})
     if str(info.get("result", "")).startswith("rolledback(final)"):
         lines.append("E\tfinal\trollback")
     lines.append("D")
@@ -549,6 +554,7 @@ def locks_compare(sc, r, out_lines, exp, t="t1"):
             bad.append(f"step {x['i']}: no model output")
             continue
         bk = x["bk"]
+        x["X"] = len(p) > 12 and p[12] == "X"
         m = {"locked": dec(p[3]), "locked_cnt": int(p[4]), "agg": p[5] == "1", "agg_cur": dec(p[6]), "agg_prev": dec(p[7])}
         for fld in ("locked", "locked_cnt", "agg", "agg_cur", "agg_prev"):
             if m[fld] != bk[fld]:
@@ -556,6 +562,22 @@ def locks_compare(sc, r, out_lines, exp, t="t1"):
         # a failing call may stop before every batch is sent (the primary batch goes first)
         if x["rpc_keys"] is not None and (dec(p[8]) != x["rpc_keys"] if not x["err"] else not set(x["rpc_keys"]) <= set(dec(p[8]))):
             bad.append(f"step {x['i']} (lock): keys sent to the store model={dec(p[8])} client={x['rpc_keys']}")
+    # expiry decisions that mattered (model: X) must be admissible w.r.t. the wall-clock windows: the previous attempt
+    # started at the agg_start / agg_retry before the last agg_retry
+    ttl = sc.get("managed_ttl") or 20000
+    begins = []
+    for x in exp:
+        if x["op"] == "agg_start":
+            begins = [x]
+        elif x["op"] == "agg_retry":
+            begins.append(x)
+        elif x["op"] in ("lock", "insert") and x["rpc_keys"] is not None:
+            p = rs.get(str(x["i"]))
+            if p is not None and len(p) > 12 and p[12] == "X" and len(begins) >= 2 and x.get("t0") is not None and begins[-2].get("t0") is not None:
+                lo, hi = x["t0"] - begins[-2]["t1"], x["t1"] - begins[-2]["t0"]
+                used = x["line"].split("\t")[-1] == "1"
+                if (used and hi < ttl) or (not used and lo >= ttl):
+                    bad.append(f"step {x['i']} (lock): expiry decision {used} not admissible: elapsed in [{lo:.1f},{hi:.1f}] ms, ttl {ttl} ms")
     if left is None:
         bad.append("no final model state")
     return bad, left
